@@ -58,6 +58,7 @@ def overlayDecl : Decl → List Entry
   | .gen tok dirs _ specs =>
     if dirs.contains "purge" then []
     else if tok == .const then constEntries (fun s => !specPurged false s) (specs.filterMap id) 0 []
+    else if tok == .imp then []      -- an import declaration declares no package-level name
     else ((specs.filterMap id).filter (fun s => !specPurged false s)).flatMap (Spec.entries tok)
 
 def expectedOverlay (f : File) : List Entry :=
@@ -84,5 +85,30 @@ def expectedOriginal (rules : List (String × Rule)) (f : File) : List Entry :=
 /-- the expected declared entries, per result file (overlay files first) -/
 def expected (overlays originals : List File) : List (List Entry) :=
   overlays.map expectedOverlay ++ originals.map (expectedOriginal (overlayRules overlays))
+
+/-! ### vocabulary of the theorems -/
+
+/-- an entry without its constant value (used where the statement is about names, order, provenance) -/
+def noVal (e : Entry) : Entry := { e with cval := none }
+
+/-- the override table entry the code must hold for a rule -/
+def toInfo (r : Rule) : Info := { keep := r.keep, purge := r.purge, oversig := r.sig }
+
+/-- the table `ov` built by the code says exactly what the overlay rules say -/
+def Agree (ov : Overrides) (rules : List (String × Rule)) : Prop :=
+  ∀ k, GV.Augment.get k ov = (ruleFor rules k).map toInfo
+
+/-- parsed files contain no nil slots -/
+def specNoNil : Option Spec → Bool
+  | some (.value names values _ _ _) => names.all Option.isSome && values.all Option.isSome
+  | some _ => true
+  | none => false
+
+def declNoNil : Option Decl → Bool
+  | some (.gen _ _ _ specs) => specs.all specNoNil
+  | some _ => true
+  | none => false
+
+def fileNoNil (f : File) : Bool := f.decls.all declNoNil
 
 end GV.Spec.Augment
